@@ -63,6 +63,19 @@ fn run_fixpoint_ht(e: &Sexp) -> Result<Sexp, String> {
     Ok(tagged("fix", vec![conv::unum(passes), conv::formula(&g), conv::boolean(again)]))
 }
 
+/// which rewrites fire somewhere in the formula when applied alone at every node (post-order):
+/// (fired b0 .. b12), indices as in ext::simplint::RULES.  Feeds the rule-firing statistics.
+fn run_profile(e: &Sexp) -> Result<Sexp, String> {
+    use anthem::convenience::apply::Apply as _;
+    let f = conv::parse_formula(e)?;
+    let mut v = vec![];
+    for (_, r) in x::RULES {
+        let mut r = *r;
+        v.push(conv::boolean(f.clone().apply(&mut r) != f));
+    }
+    Ok(tagged("fired", v))
+}
+
 macro_rules! rule_op {
     ($k:literal, $name:literal) => {
         Op { name: $name, generate: gen_rule::<$k>, run: run_rule::<$k> }
@@ -88,5 +101,6 @@ pub fn ops() -> Vec<Op> {
         Op { name: "simplify_int", generate: gen_strategy_case, run: run_simplify_int },
         Op { name: "simplify_ht", generate: gen_strategy_case, run: run_simplify_ht },
         Op { name: "fixpoint_ht", generate: gen_fixpoint_case, run: run_fixpoint_ht },
+        Op { name: "si_profile", generate: gen_fixpoint_case, run: run_profile },
     ]
 }
